@@ -44,6 +44,10 @@ func doDec0(args []vlib.Sx) (res result, err error) {
 	res.impl = vlib.Str(vlib.L(vlib.Atom("ok"), vlib.Hex(f0.Data[:])))
 	res.nontrivial = true
 	res.labels = append(res.labels, "dec0:ok")
+	if d := beyondBMP(f0); d != "" {
+		res.fail, res.sig = d, "c09-lookup-beyond-bmp"
+		return res, nil
+	}
 	for c := uint32(0); c < 300; c++ {
 		g, def := specLookup0(b, c)
 		if lib := sub.Lookup(rune(c)); !def || uint16(lib) != g {
@@ -95,6 +99,10 @@ func doDec6(args []vlib.Sx) (res result, err error) {
 	res.impl = vlib.Str(pairsOf4(got))
 	res.nontrivial = true
 	res.labels = append(res.labels, "dec6:ok", sizeLabel("entries6", len(got)))
+	if d := beyondBMP(got); d != "" {
+		res.fail, res.sig = d, "c09-lookup-beyond-bmp"
+		return res, nil
+	}
 	// the specification's mapping; the tolerated excess 0x0000 at the end does
 	// not change it
 	for c := uint32(0); c <= 0xFFFF; c++ {
